@@ -6,6 +6,9 @@ CONSTANTS
   MaxSegs = 2
   HDR = 2
   Impl = "required"
+  FileLimit = 0
+  TotalLimit = 0
+  EagerSync = FALSE
   MaxOps = 6
   Depth = 6
 INVARIANT Emit
